@@ -2,6 +2,7 @@ import Driver.Util
 import Driver.C05
 import Driver.Kernel
 import Driver.C04
+import Driver.C11
 import Driver.C18
 import Driver.C16
 import Driver.C13
@@ -18,6 +19,7 @@ def dispatch (op : String) (j : Json) : Except String Json :=
   if op.startsWith "c05." then C05.handle op j
   else if op.startsWith "kernel." then Kernel.handle op j
   else if op.startsWith "c04." then C04.handle op j
+  else if op.startsWith "c11." then C11.handle op j
   else if op.startsWith "c18." then C18.handle op j
   else if op.startsWith "c16." then C16.handle op j
   else if op.startsWith "c13." then C13.handle op j
